@@ -461,10 +461,13 @@ def constraint_report(truth, nd, admitted, exhaustive):
   rep = []
 
   def interval(name, value, lo, hi, rtol=RTOL):
-    tol = rtol * max(abs(lo), abs(hi), abs(value), 1e-300)
-    if value < lo - tol or value > hi + tol:
+    # each bound is compared with a tolerance relative to ITS OWN magnitude (a huge upper bound must not blur the
+    # comparison with a small lower one)
+    tlo = rtol * max(abs(lo), abs(value), 1e-300)
+    thi = rtol * max(abs(hi), abs(value), 1e-300)
+    if value < lo - tlo or value > hi + thi:
       rep.append((name, 'violated', '%s=%.12g outside [%.12g, %.12g]' % (name, value, lo, hi)))
-    elif value < lo + tol or value > hi - tol:
+    elif value < lo + tlo or value > hi - thi:
       rep.append((name, 'ok-on-edge', ''))
     else:
       rep.append((name, 'ok', ''))
@@ -518,7 +521,9 @@ def constraint_report(truth, nd, admitted, exhaustive):
       # (two-pass) s.d. itself is only known to about eps * level / s.d. - in the library as in this oracle
       y_ = truth.series(T)
       kap = max(abs(float(np.mean(x))) / float(np.std(x)), abs(float(np.mean(y_))) / float(np.std(y_)))
-      interval('budget_range', budget, lo, hi, rtol=RTOL + 1e-14 * kap)
+      # ... and for a nearly collinear pair the library's sqrt(1 - corr^2) is only known to about eps / (1 - corr^2)
+      c_ = float(np.corrcoef(x, y_)[0, 1])
+      interval('budget_range', budget, lo, hi, rtol=RTOL + 1e-14 * kap + 1e-15 / max(1e-300, 1.0 - c_ * c_))
   return rep
 
 
